@@ -109,6 +109,13 @@ theorem C05_reject_classes_string_token_as_keyword (t : Tok) (rest out : List To
     with a sentence of the grammar, never with something the grammar does not know. -/
 theorem C05_print_in_grammar (d : QueryDoc) (h : WFQuery d) :
     Derivable gql .executableDocument (printQuery d) :=
+  (printQuery_in_grammar d h).derivable
+
+/-- … and the print is its own canonical form: the unparser never emits one of the spellings the
+    canonical form removes (`query {`, `a: a`), so both sides of the unparse equation
+    `printQuery tree = canonical (tokens input)` are canonical token sequences. -/
+theorem C05_print_canonical (d : QueryDoc) (h : WFQuery d) :
+    Derives gql (.nt .executableDocument) (printQuery d) (printQuery d) :=
   printQuery_in_grammar d h
 
 /-- non-vacuity: `query Q($v: Int = 1 @c) @d { a: b(x: $v) { ...F ... on T { c } } } fragment F on T { c }` is well-formed -/
@@ -147,6 +154,7 @@ example : WFQuery
     refine ⟨by decide, by simp, by simp, by simp [WFSelections, WFSelection]⟩
 
 #print axioms C05_print_in_grammar
+#print axioms C05_print_canonical
 #print axioms C05_recognise_sound
 #print axioms C05_canonical_sound
 #print axioms C05_reject_classes_empty_document
